@@ -1223,7 +1223,7 @@ def required_classes():
                 "ibs/l%d/e=rand/H=rand/extract-alt/bit:sig" % l, "ibs/l%d/e=rand/H=rand/extract-alt/pubkey-on-twist" % l]
         req += ["val/l%d/pubkey:twist" % l, "val/l%d/pubkey:(0,0)" % l, "val/l%d/pubkey:x=p(G)" % l, "val/l%d/keypair:d=0" % l,
                 "val/l%d/keypair:d=q" % l, "val/l%d/keypair:d=q+1" % l]
-        req += ["dh/l%d/invalid:Q-on-twist" % l, "dh/l%d/invalid:keylen=2no+1" % l, "dh/l%d/d=1/d=q-1/keylen=no+1" % l]
+        req += ["dh/l%d/invalid:Q-on-twist" % l, "dh/l%d/invalid:keylen=2no+1" % l, "dh/l%d/d=1/d=q-1/keylen=2no" % l]
     return tuple(req)
 
 
